@@ -74,10 +74,32 @@ def check_first_attempt(ctx, cfg, prog, mod, rule):
     b = ctx.anchor(cfg, INSERT_TX)
     if b is None:
         return
-    att = [l for l, nm in b.names.items() if nm == 'attempt']
+    # the retry counter: the integer bound from the `Some` payload of the `next()` call that drives a loop containing
+    # the re-creation site (whatever its name); fall back to a local named `attempt`
+    import loops as _loops
+    vsites = [bb for bb, t in b.calls() if (t.resolved or t.callee) == VNEW]
+    att = []
+    for h, nodes in _loops.natural_loops(b).items():
+        if not any(v in nodes for v in vsites):
+            continue
+        for nb in nodes:
+            nt = b.blocks[nb].term
+            if nt.k != 'call' or (nt.callee or nt.resolved or '').rsplit('::', 1)[-1] != 'next' or nt.dest is None or \
+                    not nt.dest.is_local():
+                continue
+            for blk in b.blocks:
+                if blk.idx not in nodes:
+                    continue
+                for s_ in blk.stmts:
+                    if s_.kind == 'A' and s_.rv.k == 'use' and s_.rv.ops and s_.rv.ops[0].place is not None and \
+                            s_.rv.ops[0].place.local == nt.dest.local and s_.rv.ops[0].place.proj and s_.place.is_local() and \
+                            b.locals[s_.place.local] in ('usize', 'u32', 'u64', 'u8', 'u16', 'i32', 'i64'):
+                        att.append(s_.place.local)
+    att = sorted(set(att) | {l for l, nm in b.names.items() if nm == 'attempt'})
     site = '%s:%d' % (b.file, b.line)
     if not att:
-        ctx.ob(rule, 'FIRSTTRY|' + INSERT_TX, cfg, False, 'no retry counter named `attempt` found (fail closed)', site=site)
+        ctx.ob(rule, 'FIRSTTRY|' + INSERT_TX, cfg, False, 'no retry counter found: no integer loop variable drives a loop around the '
+               're-creation site (fail closed)', site=site)
         return
     carried = set(att)
     changed = True
@@ -114,6 +136,18 @@ def check_first_attempt(ctx, cfg, prog, mod, rule):
                         retry_edges.add((sbb, true_t))
                 elif op == 'Eq' and k == 0 and false_t is not None:
                     retry_edges.add((sbb, false_t))
+    # `match attempt { 0 => .., _ => .. }`: a switch on the counter itself; every edge but the one for 0 is a retry edge
+    for l in carried:
+        for (sbb, _, snode, how) in uses.get(l, []):
+            if how != 'switch':
+                continue
+            listed = {v: tg for v, tg in snode.values}
+            if 0 in listed:
+                for v, tg in snode.values:
+                    if v != 0:
+                        retry_edges.add((sbb, tg))
+                if snode.otherwise is not None:
+                    retry_edges.add((sbb, snode.otherwise))
     sites_ = [bb for bb, t in b.calls() if (t.resolved or t.callee) == VNEW]
     reach = flow.reach_edges_cp(b, [0], avoid_edges=retry_edges)
     bad = [x for x in sites_ if x in reach]
